@@ -196,14 +196,25 @@ def r1_decoder_inputs(ctx):
     else:
         sb = ds.body_of(simpl[0])
         n2 = _names(simpl[0])
-        aggs = list(sb.aggregates(r"^extractor::body::StreamingBody$"))
+        # the extractor is built either by a struct literal or through the private constructor StreamingBody::new (whose own literal is checked below)
         fields = [fd["name"] for fd in (ds.adt_fields("extractor::body::StreamingBody") or [])]
-        for ab, i, st in aggs:
-            if "body" in fields:
-                _chain(ctx, R, "stream:extractor-holds-this-request's-body", sb, st["rv"]["ops"][fields.index("body")], ASYNC + [r"http::Request::<T>::into_body$", r"http::Request::<T>::into_parts$"],
-                       (sb, ab), origin=_from_upvar_param(ds, sb, n2.get("request", [2])))
-        if not aggs:
-            ctx.lost(R, "StreamingBody aggregate in StreamingBody::from_request")
+        built = [(ab, st["rv"]["ops"][fields.index("body")]) for ab, i, st in sb.aggregates(r"^extractor::body::StreamingBody$") if "body" in fields and ab in sb.reachable(0)]
+        built += [(bb, t["args"][0]) for bb, t in sb.live_calls(r"StreamingBody::new$")]
+        for ab, op in built:
+            _chain(ctx, R, "stream:extractor-holds-this-request's-body", sb, op, ASYNC + [r"http::Request::<T>::into_body$", r"http::Request::<T>::into_parts$"],
+                   (sb, ab), origin=_from_upvar_param(ds, sb, n2.get("request", [2])))
+        if not built:
+            ctx.lost(R, "construction of the StreamingBody (literal or StreamingBody::new) in StreamingBody::from_request")
+        _chain(ctx, R, "stream:extractor-returns-that-value", sb, {"l": 0, "p": []}, BODY_READ, sb, origin=_from_upvar_param(ds, sb, n2.get("rqctx", [1]) + n2.get("request", [2])), consts_ok=True)
+    snew = ctx.need_fn(ds, R, r"^extractor::body::StreamingBody::new$")
+    fields = [fd["name"] for fd in (ds.adt_fields("extractor::body::StreamingBody") or [])]
+    lits = [(b, s) for b, _, s in snew.aggregates(r"^extractor::body::StreamingBody$") if b in snew.reachable(0)]
+    okn = len(lits) == 1 and "body" in fields
+    for b, s in lits:
+        if "body" in fields:
+            sl = snew.slice(s["rv"]["ops"][fields.index("body")])
+            okn = okn and sl.params() == _names(snew).get("body", [1]) and not sl.callees and not _consts(sl)
+    ctx.check(R, "stream:new-stores-its-body-argument", okn, "StreamingBody::new builds %d literal(s) whose `body` is its own first argument: %s" % (len(lits), okn), snew)
     ist = ctx.need_fn(ds, R, r"^extractor::body::StreamingBody::into_stream$")
     gens = [g for g in ds.children(ist) if g.live_calls(r"yielder::Sender::<T>::send$")]
     if len(gens) != 1:
@@ -230,34 +241,92 @@ def r1_decoder_inputs(ctx):
                    ASYNC + [r"hyper::body::Frame::<T>::into_data$", r"http_body_util::BodyExt::frame$", r"Result::<T, E>::map_err$"], (g, bb),
                    must_call=r"Frame::<T>::into_data$", origin=origin)
     # ---- accumulation
+    _accumulation(ctx, R)
+
+
+APPEND = r"bytes::BufMut::(put|put_slice|extend_from_slice)$|BytesMut::extend_from_slice$"
+PULL = r"TryStreamExt::try_next$|StreamExt::next$"
+PIN = [r"pin::Pin::<Ptr>::new$", r"pin::Pin::<Ptr>::new_unchecked$", r"boxed::Box::<T>::pin$", r"pin::Pin::<Ptr>::as_mut$"]
+
+
+def _mut_borrowers(fn, root):
+    """Live calls that receive a `&mut` (re)borrow of local `root` as an argument."""
+    from .lib import borrow_root
+    out = []
+    for bb, t in fn.live_calls():
+        for a in t["args"]:
+            l = operand_local(a)
+            if l is None or not re.match(r"^&('\S+ )?mut ", fn.local_ty(l)):
+                continue
+            if borrow_root(fn, a) == root:
+                out.append((bb, t))
+                break
+    return out
+
+
+def _accumulation(ctx, R):
+    """into_bytes_mut: the returned buffer starts empty, receives every element of this body's stream whole, in
+    arrival order, through ONE append site, and nothing else writes to it.  Two idioms are the same program and are
+    decided by the same clauses: `stream.try_fold(BytesMut::new(), |mut acc, chunk| {acc.put(chunk); ok(acc)})` (the
+    append site lives in the fold closure, accumulator = its parameter, element = its item parameter) and
+    `let mut acc = BytesMut::new(); while let Some(chunk) = stream.try_next().await? {acc.put(chunk)}; Ok(acc)`
+    (append site in the body itself, element = payload of the pull call)."""
+    from .lib import borrow_root
+    ds = ctx.ds
     ibm = ctx.need_fn(ds, R, r"^extractor::body::StreamingBody::into_bytes_mut$")
     ib = ds.body_of(ibm)
-    folds = ib.live_calls(r"TryStreamExt::try_fold$")
-    ctx.check(R, "accumulate:single-fold", len(folds) == 1, "try_fold sites in into_bytes_mut: %d" % len(folds), ib)
+    fns = [ib] + ds.descendants(ib)
+    puts = [(h, pb, pt) for h in fns for pb, pt in h.live_calls(APPEND)]
+    ctx.check(R, "accumulate:single-append-site", len(puts) == 1, "append sites (put / put_slice / extend_from_slice) in into_bytes_mut and its closures: %d" % len(puts), ib)
+    if len(puts) != 1:
+        return
+    h, pb, pt = puts[0]
+    stream_allow = ASYNC + PIN + [r"StreamingBody::into_stream$"]
+    a0, a1 = h.slice(pt["args"][0]), h.slice(pt["args"][1])
+    root = borrow_root(h, pt["args"][0])
+    if h is ib:
+        # ---- loop form
+        pulls = [(c, bb, t) for c, bb, t in a1.calls(PULL)]
+        okp = len(pulls) == 1 and not callee_allow(a1, stream_allow + [PULL]) and not _consts(a1) and not [a for a in a1.atoms if a[0] in ("binop", "unop")]
+        ctx.check(R, "accumulate:appends-each-chunk-whole", okp and root is not None,
+                  "put(acc, chunk): chunk is the payload of %d pull call(s) on the stream, other operations on the way: %s" % (len(pulls), sorted(set(b[0] for b in callee_allow(a1, stream_allow + [PULL])))), (ib, pb))
+        for c, eb, et in pulls:
+            _chain(ctx, R, "accumulate:folds-this-body's-stream", ib, et["args"][0], stream_allow, (ib, eb), must_call=r"StreamingBody::into_stream$", origin=_from_upvar_param(ds, ib, [1]))
+            # every pulled element is appended before the next pull
+            again = eb in ib.reachable(ib.succ(eb), avoid=[pb])
+            ctx.check(R, "accumulate:every-chunk-is-appended", not again, "a path from one pull of the stream to the next that skips the append exists: %s" % again, (ib, eb))
+        if root is None:
+            return
+        rs = ib.slice({"l": root, "p": []})
+        ctx.check(R, "accumulate:starts-empty", rs.has_call(r"bytes::BytesMut::new$") and not callee_allow(rs, [r"bytes::BytesMut::new$"]) and not rs.params() and not _consts(rs),
+                  "initial accumulator: %s" % rs.callee_names(), (ib, pb))
+        writers = _mut_borrowers(ib, root)
+        oks = [(b, s) for b, _, s in ib.aggregates(r"^std::result::Result$", "Ok") if b in ib.reachable(0)]
+        good = bool(oks)
+        for b, s in oks:
+            sl = ib.slice(s["rv"]["ops"][0])
+            good = good and sl.touches_local(root) and not callee_allow(sl, [r"bytes::BytesMut::new$"]) and not sl.params()
+        ctx.check(R, "accumulate:returns-the-accumulator", good and [bb for bb, _ in writers] == [pb],
+                  "%d Ok(..) sites, each carrying the accumulator itself: %s; calls that borrow the accumulator mutably: %s" % (len(oks), good, sorted(set(t["callee"] for _, t in writers))), ib)
+        _chain(ctx, R, "accumulate:result-is-the-fold", ib, {"l": 0, "p": []}, stream_allow + [PULL, r"bytes::BytesMut::new$"], ib, must_call=r"StreamingBody::into_stream$")
+        return
+    # ---- fold form: h is the closure handed to try_fold
+    folds = [(bb, t) for bb, t in ib.live_calls(r"TryStreamExt::try_fold$") if any(g is h for g, _ in closure_args_of_call(ib, t))]
+    ctx.check(R, "accumulate:appends-each-chunk-whole", len(folds) == 1 and a0.params() == [2] and root == 2 and a1.params() == [3] and not callee_allow(a0, ASYNC) and not callee_allow(a1, ASYNC)
+              and not _consts(a1) and not [a for a in a1.atoms if a[0] in ("binop", "unop")],
+              "the append site is in the closure of %d try_fold call(s); put(acc <- params %s, chunk <- params %s)" % (len(folds), a0.params(), a1.params()), (h, pb))
+    ctx.check(R, "accumulate:every-chunk-is-appended", h.must_pass([pb]), "every path through the fold closure passes the append: %s" % h.must_pass([pb]), (h, pb))
+    rs = h.slice({"l": 0, "p": []})
+    writers = _mut_borrowers(h, 2)
+    ctx.check(R, "accumulate:returns-the-accumulator", 2 in rs.params() and not callee_allow(rs, ASYNC + [r"futures::future::ok$", r"future::ready$", APPEND]) and [bb for bb, _ in writers] == [pb],
+              "fold closure returns params %s via %s; calls that borrow the accumulator mutably: %s" % (rs.params(), rs.callee_names(), sorted(set(t["callee"] for _, t in writers))), h)
     for bb, t in folds:
-        _chain(ctx, R, "accumulate:folds-this-body's-stream", ib, t["args"][0], ASYNC + [r"StreamingBody::into_stream$"], (ib, bb), must_call=r"StreamingBody::into_stream$",
+        _chain(ctx, R, "accumulate:folds-this-body's-stream", ib, t["args"][0], stream_allow, (ib, bb), must_call=r"StreamingBody::into_stream$",
                origin=_from_upvar_param(ds, ib, [1]))
         s1 = ib.slice(t["args"][1])
-        ctx.check(R, "accumulate:starts-empty", s1.has_call(r"bytes::BytesMut::new$") and not callee_allow(s1, [r"bytes::BytesMut::new$"]) and not s1.params(),
+        ctx.check(R, "accumulate:starts-empty", s1.has_call(r"bytes::BytesMut::new$") and not callee_allow(s1, [r"bytes::BytesMut::new$"]) and not s1.params() and not _consts(s1),
                   "initial accumulator: %s" % s1.callee_names(), (ib, bb))
-        cls = closure_args_of_call(ib, t)
-        if len(cls) != 1:
-            ctx.lost(R, "fold closure of try_fold")
-            continue
-        h = cls[0][0]
-        puts = h.live_calls(r"bytes::BufMut::(put|put_slice|extend_from_slice)$|BytesMut::extend_from_slice$")
-        okp = len(puts) == 1
-        d = "%d append sites" % len(puts)
-        for pb, pt in puts:
-            a0, a1 = h.slice(pt["args"][0]), h.slice(pt["args"][1])
-            okp = okp and a0.params() == [2] and a1.params() == [3] and not callee_allow(a0, ASYNC) and not callee_allow(a1, ASYNC) and not _consts(a1)
-            d += "; put(acc <- params %s, chunk <- params %s)" % (a0.params(), a1.params())
-        ctx.check(R, "accumulate:appends-each-chunk-whole", okp, d, h)
-        rs = h.slice({"l": 0, "p": []})
-        ctx.check(R, "accumulate:returns-the-accumulator", 2 in rs.params() and not callee_allow(rs, ASYNC + [r"futures::future::ok$", r"future::ready$"] +
-                                                                                                   [r"bytes::BufMut::(put|put_slice|extend_from_slice)$"]),
-                  "fold closure returns params %s via %s" % (rs.params(), rs.callee_names()), h)
-    _chain(ctx, R, "accumulate:result-is-the-fold", ib, {"l": 0, "p": []}, ASYNC + [r"TryStreamExt::try_fold$", r"StreamingBody::into_stream$", r"bytes::BytesMut::new$"], ib,
+    _chain(ctx, R, "accumulate:result-is-the-fold", ib, {"l": 0, "p": []}, stream_allow + [r"TryStreamExt::try_fold$", r"bytes::BytesMut::new$"], ib,
            must_call=r"TryStreamExt::try_fold$")
 
 
@@ -406,8 +475,10 @@ def r3_request_context(ctx):
         tag = "direct" if g is hb else "spawned"
         if g is hb:
             s1, s2, s0 = hb.slice(t["args"][1]), hb.slice(t["args"][2]), hb.slice(t["args"][0])
-            ok1 = s1.touches_local(ctx_local) and not callee_allow(s1, reqwrap + [r"^handler::RequestInfo::new$", r"HttpRouter::<Context>::lookup_route$", r"http::Request::<T>::(method|uri)$",
-                                                                                  r"http::Uri::path$", r"VersionPolicy::request_version$", r"string::ToString::to_string$", r"sync::Arc::<T, A>::clone$"])
+            # the argument is the aggregate built above: nothing is applied to it beyond what built its fields (each field's own chain is checked above)
+            built = set((c, b) for c, b, _ in hb.slice({"l": ctx_local, "p": []}).callees)
+            extra = [x for x in callee_allow(s1, reqwrap) if x not in built]
+            ok1 = s1.touches_local(ctx_local) and not extra
             ok2 = upvar_params(ds, hb, s2) == {P["request"]} and not callee_allow(s2, reqwrap)
             ok0 = s0.has_call(r"lookup_route$") and s0.reads_field("handler")
         else:
@@ -707,6 +778,19 @@ _U16_AS_U8 = """    fn deserialize_u16<V>(self, visitor: V) -> Result<V::Value, 
         })
     }"""
 
+_FOLD = """        self.into_stream()
+            .try_fold(BytesMut::new(), |mut out, chunk| {
+                out.put(chunk);
+                futures::future::ok(out)
+            })
+            .await"""
+_LOOP = """        let mut chunks = std::pin::pin!(self.into_stream());
+        let mut out = BytesMut::new();
+        while let Some(chunk) = chunks.try_next().await? {
+            %s
+        }
+        Ok(out)"""
+
 SELFTEST = [
     {"name": "query-lowercased", "kind": "mutant",
      "edits": [("dropshot/src/extractor/query.rs", "serde_urlencoded::from_str(raw_query_string)", "serde_urlencoded::from_str(&raw_query_string.to_lowercase())")],
@@ -738,6 +822,25 @@ SELFTEST = [
     {"name": "accumulator-drops-chunk-tail", "kind": "mutant",
      "edits": [("dropshot/src/extractor/body.rs", "                out.put(chunk);", "                out.put(chunk.slice(..chunk.len().min(8192)));")],
      "expect": ["C09.R1"], "why": "buffered bodies lose the tail of every large frame"},
+    {"name": "loop-accumulator-skips-chunks", "kind": "mutant",
+     "edits": [("dropshot/src/extractor/body.rs", _FOLD, _LOOP % "if out.len() < 65536 {\n                out.put(chunk);\n            }")],
+     "expect": ["C09.R1"], "why": "(loop idiom) chunks after the first 64 KiB are dropped: a pull of the stream can be followed by the next pull without the append"},
+    {"name": "loop-accumulator-keeps-last-chunk", "kind": "mutant",
+     "edits": [("dropshot/src/extractor/body.rs", _FOLD, _LOOP % "out.clear();\n            out.put(chunk);")],
+     "expect": ["C09.R1"], "why": "(loop idiom) the buffer is cleared before every append, so only the last frame reaches the handler"},
+    {"name": "accumulate-by-while-let-loop", "kind": "benign",
+     "edits": [("dropshot/src/extractor/body.rs", _FOLD, _LOOP % "out.put(chunk);")],
+     "why": "behaviour-preserving: try_fold(BytesMut::new(), ..) spelled as a pinned stream drained by `while let Some(chunk) = s.try_next().await?`"},
+    {"name": "streaming-extractor-through-constructor", "kind": "benign",
+     "edits": [("dropshot/src/extractor/body.rs", "        Ok(Self {\n            body: request.into_body(),\n            cap: rqctx.request_body_max_bytes(),\n        })",
+                "        let max_bytes = rqctx.request_body_max_bytes();\n        let body = request.into_body();\n        Ok(Self::new(body, max_bytes))")],
+     "why": "behaviour-preserving: the struct literal replaced by the existing private constructor StreamingBody::new"},
+    {"name": "context-parts-bound-first", "kind": "benign",
+     "edits": [("dropshot/src/server.rs", "        request: RequestInfo::new(&request, remote_addr),\n        endpoint: lookup_result.endpoint,\n        request_id: request_id.to_string(),\n        log: request_log,\n    };\n    let handler = lookup_result.handler;",
+                "        request: request_info,\n        endpoint,\n        request_id: request_id.to_owned(),\n        log: request_log,\n    };"),
+               ("dropshot/src/server.rs", "    let rqctx = RequestContext {\n        server: Arc::clone(&server),",
+                "    let crate::router::RouterLookupResult { handler, endpoint } = lookup_result;\n    let request_info = RequestInfo::new(&request, remote_addr);\n    let rqctx = RequestContext {\n        server: Arc::clone(&server),")],
+     "why": "behaviour-preserving: lookup result destructured, RequestInfo bound to a local first, field-init shorthand, to_string() spelled to_owned()"},
     {"name": "query-renamed-unwrap-or-default", "kind": "benign",
      "edits": [("dropshot/src/extractor/query.rs", "    let raw_query_string = request.uri().query().unwrap_or(\"\");", "    let qs = request.uri().query().unwrap_or_default();"),
                ("dropshot/src/extractor/query.rs", "serde_urlencoded::from_str(raw_query_string)", "serde_urlencoded::from_str(qs)")],
